@@ -5,6 +5,7 @@
    fixes/C12-empty-batch.patch applied. *)
 From Coq Require Import ZArith List QArith Qcanon Bool Arith Lia.
 From SG Require Import Base.QcUtil Model.FunCache Model.FunPoly Proofs.FunCacheProofs Proofs.FunPolyProofs.
+From SG Require Import Model.FunCacheVec Proofs.FunCacheVecProofs.
 Import ListNotations.
 
 (* ------------------------------------------------------------------ cache transparency *)
@@ -60,6 +61,55 @@ Theorem C12_wrong_output_length_batch_raises : forall (eval : point -> value) (o
   length (eval p) <> olen -> snd (call_batch eval olen vr st (p :: ps)) = RErr EOutLen.
 Proof. exact wrong_outlen_batch_raises. Qed.
 Print Assumptions C12_wrong_output_length_single_raises.
+
+
+(* ------------------------------------------------------------------ the vectorised evaluation as a parameter of its own *)
+(* Model/FunCacheVec.v: the batch path calls the class's eval_vectorized (`evec`: the generic loop or a numpy override),
+   optionally followed by check_vectorization (`checks`, active while the debug flag is set), reshapes and caches the
+   vectorised rows. *)
+
+(* the generic eval_vectorized of the base class, on arrays of ANY nesting depth, evaluates every point with eval ... *)
+Theorem C12_generic_eval_vectorized_correct : forall (eval : point -> value) (olen : nat),
+  (forall p, length (eval p) = olen) -> forall a, generic_vec eval olen a = Some (arr_map eval a).
+Proof. exact generic_vec_correct. Qed.
+(* ... and returns an array of the shape of its argument with the innermost axis replaced by output_length() *)
+Theorem C12_generic_eval_vectorized_shape : forall (eval : point -> value) (olen : nat),
+  (forall p, length (eval p) = olen) -> forall a r, generic_vec eval olen a = Some r ->
+  varr_shape r = arr_shape a /\ varr_rows_ok olen r = true.
+Proof. exact generic_vec_shape. Qed.
+Print Assumptions C12_generic_eval_vectorized_correct.
+Print Assumptions C12_generic_eval_vectorized_shape.
+
+(* SIMULATION: whenever the vectorised evaluation agrees with the scalar one, the machine with its own vectorised
+   evaluation and debug flag IS the machine of Model/FunCache.v (debug switches read as no-ops): the same dictionary,
+   old dictionary and caching flag after every operation and the same results, for every history and both variants.
+   All theorems above (transparency, shapes, counter) therefore transfer. *)
+Theorem C12_vectorised_machine_simulates : forall (eval : point -> value) (olen : nat) evec checks,
+  (forall ps, evec ps = map eval ps) -> forall vr ops st dbg,
+  map (fun x => vbase (snd x)) (vrun eval olen evec checks vr (mkVS st dbg) ops) = map snd (run eval olen vr st (map lift ops)) /\
+  map fst (vrun eval olen evec checks vr (mkVS st dbg) ops) =
+    map (fun x => expected (fst x) (snd x)) (combine ops (map fst (run eval olen vr st (map lift ops)))).
+Proof. exact vrun_simulates. Qed.
+Print Assumptions C12_vectorised_machine_simulates.
+
+(* cache transparency of EVERY history (single / batch / direct eval_vectorized / reset / deactivate / size / debug switch)
+   holds IF AND ONLY IF the class's eval_vectorized returns the scalar values on every batch: a vectorised override that
+   deviates on one batch ps is exposed by the one-call history f(ps) on a fresh object *)
+Theorem C12_transparent_iff_vectorisation_correct : forall (eval : point -> value) (olen : nat) evec checks,
+  (forall p, length (eval p) = olen) -> evec [] = [] ->
+  ((forall ops, Forall2 (vagrees) (map fst (vrun eval olen evec checks fixed (vinit) ops)) (videal eval ops)) <->
+   (forall ps, evec ps = map eval ps)).
+Proof. exact transparent_iff_vectorisation_correct. Qed.
+Print Assumptions C12_transparent_iff_vectorisation_correct.
+
+(* debug mode: for an override that calls check_vectorization, with debug = True from the start, whatever the
+   vectorised code computes, every call returns eval of its points or raises the AssertionError of
+   check_vectorization (math.isclose modelled as equality) — no wrong value is returned or cached *)
+Theorem C12_debug_mode_sound : forall (eval : point -> value) (olen : nat) evec,
+  (forall p, length (eval p) = olen) -> forall ops, debug_always_on ops = true ->
+  Forall2 vagrees_or_assert (map fst (vrun eval olen evec true fixed (mkVS init true) ops)) (videal eval ops).
+Proof. intros eval olen evec Hlen ops Hd. exact (debug_mode_sound eval olen evec true eq_refl Hlen ops init true [] Hd (R_init eval)). Qed.
+Print Assumptions C12_debug_mode_sound.
 
 (* ------------------------------------------------------------------ the counter *)
 (* caching on: get_f_dict_size() = number of distinct points requested (singly or in batches) since the last reset;
@@ -156,6 +206,24 @@ Proof. vm_compute. reflexivity. Qed.
 Example C12_nonvacuous_hyp : (forall p, length (ex_eval p) = 1%nat) /\ no_deact (firstn 7 ex_ops) = true /\
   length (distinct (requested [] (firstn 3 ex_ops))) = 2%nat.
 Proof. split; [intro p; reflexivity | split; vm_compute; reflexivity]. Qed.
+(* a vectorised evaluation that is wrong in the second row: exposed by one batch call; caught by debug mode *)
+Definition ex_evec_wrong (ps : list point) : list value :=
+  match ps with p :: q :: r => ex_eval p :: [0] :: map ex_eval r | _ => map ex_eval ps end.
+Example C12_nonvacuous_wrong_vectorisation :
+  map fst (vrun ex_eval 1 ex_evec_wrong true fixed vinit [VBase (OBatch [[1; Qc2]; [Qc2; Qc2]]); VDebug true; VBase (OBatch [[1; Qc2]; [Qc2; Qc2]]); VBase (OBatch [[1; 1]])]) =
+  [VR (RBatch [[Q2Qc (3#1)]; [0]]); VR RUnit; VAssertVec; VR (RBatch [[Qc2]])].
+Proof. vm_compute. reflexivity. Qed.
+(* a nested (3-d) array through the generic loop *)
+Example C12_nonvacuous_nested :
+  generic_vec ex_eval 1 (ANest [ANest [APoint [1; Qc2]; APoint [Qc2; Qc2]]; ANest [APoint [1; 1]; APoint [0; 0]]]) =
+    Some (VNest [VNest [VRow [Q2Qc (3#1)]; VRow [Q2Qc (4#1)]]; VNest [VRow [Qc2]; VRow [0]]]) /\
+  arr_shape (ANest [ANest [APoint [1; Qc2]; APoint [Qc2; Qc2]]; ANest [APoint [1; 1]; APoint [0; 0]]]) = Some [2; 2]%nat.
+Proof. split; vm_compute; reflexivity. Qed.
+(* one object, points of different dimension in one history (the dictionary keys are tuples of any length) *)
+Example C12_nonvacuous_cross_dimension :
+  map fst (run ex_eval 1 fixed init [OBatch [[1; Qc2]]; OBatch [[1; Qc2; Qc2]; [1]]; OSingle [1; Qc2; Qc2]; OSize]) =
+  [RBatch [[Q2Qc (3#1)]]; RBatch [[Q2Qc (5#1)]; [1]]; RSingle [Q2Qc (5#1)]; RSize 3].
+Proof. vm_compute. reflexivity. Qed.
 (* FunctionMultilinear([1,2]) on [0,2]x[0,3]: the code returns 11, the repaired code and the formal integral 24 *)
 Example C12_nonvacuous_multilinear :
   atom_int false (FMultilinear [1; Qc2]) [0; 0] [Qc2; Q2Qc (3#1)] = IVal (Q2Qc (11#1)) /\
@@ -175,3 +243,120 @@ Theorem C12_polynomial1d_integral_is_riemann : forall (cs : list Qc) (a b : Qc),
     (forall x : Qc, exists y, atom_eval (FPoly1d cs) [x] = IVal y /\ FunPolyReal.QcR y = FunPolyReal.pevR cs 0 (FunPolyReal.QcR x)).
 Proof. exact FunPolyReal.poly1d_integral_is_riemann. Qed.
 Print Assumptions C12_polynomial1d_integral_is_riemann.
+
+(* ------------------------------------------------------------------ link to the Riemann integral (every dimension) *)
+(* `is_iterated_riemann_integral f a b v` (Proofs/FunPolyIter.v, inductive is_iter_int): v is the iterated Riemann
+   integral int_{a1}^{b1} ( ... ( int_{an}^{bn} f(x1..xn) dxn ) ... ) dx1 of f : R^n -> R, each one-variable integral being
+   Coquelicot's is_RInt; C12_iterated_integral_1d / _2d below spell the definition out in one and two variables.
+   For EVERY instance of the polynomial family (ConstantValue, FunctionLinear, FunctionMultilinear, FunctionPolynomial,
+   Polynomial1d, FunctionCompose of these) in EVERY dimension n and over EVERY box with rational corners: the analytic
+   integral (code after the integral fixes = the code of /repo today) is the iterated Riemann integral of the real function
+   fn_real n f, and fn_real n f is what eval computes at every rational point.
+   (Depends on the real-number axioms of the standard library; the identification of the iterated integral with the
+   integral over the box - Fubini - is not formalised.) *)
+From SG Require Proofs.FunPolyIter.
+Theorem C12_polynomial_family_integral_is_iterated_riemann : forall n f a b,
+  fn_dim_ok n f = true -> length a = n -> length b = n ->
+  exists v, fn_int true f a b = IVal v /\
+    FunPolyIter.is_iterated_riemann_integral (FunPolyIter.fn_real n f) (map FunPolyReal.QcR a) (map FunPolyReal.QcR b) (FunPolyReal.QcR v) /\
+    (forall x, length x = n -> exists y, fn_eval f x = IVal y /\ FunPolyReal.QcR y = FunPolyIter.fn_real n f (map FunPolyReal.QcR x)).
+Proof. exact FunPolyIter.family_integral_is_iterated_riemann. Qed.
+Print Assumptions C12_polynomial_family_integral_is_iterated_riemann.
+
+Theorem C12_iterated_integral_1d : forall f a b v,
+  FunPolyIter.is_iterated_riemann_integral f [a] [b] v <-> FunPolyReal.is_riemann_integral (fun x => f [x]) a b v.
+Proof. exact FunPolyIter.iter_1d. Qed.
+Theorem C12_iterated_integral_2d : forall f a1 a2 b1 b2 v,
+  FunPolyIter.is_iterated_riemann_integral f [a1; a2] [b1; b2] v <->
+  exists g, (forall x, Rdefinitions.Rle (Rbasic_fun.Rmin a1 b1) x /\ Rdefinitions.Rle x (Rbasic_fun.Rmax a1 b1) -> FunPolyReal.is_riemann_integral (fun y => f [x; y]) a2 b2 (g x)) /\
+            FunPolyReal.is_riemann_integral g a1 b1 v.
+Proof. exact FunPolyIter.iter_2d. Qed.
+
+(* the hypotheses are satisfiable in several variables: FunctionCompose([(FunctionMultilinear([1,2,1]), 2), (FunctionPolynomial([1,1,2], 3), 1/2)]) *)
+Example C12_nonvacuous_iterated :
+  fn_dim_ok 3 (FCompose [(FMultilinear [1; Qc2; 1], Qc2); (FPolynomial [1; 1; Qc2] 3, Qchalf)]) = true /\
+  fn_int true (FCompose [(FMultilinear [1; Qc2; 1], Qc2); (FPolynomial [1; 1; Qc2] 3, Qchalf)]) [0; 0; 0] [1; Qc2; 1] = IVal (Q2Qc (49#4)).
+Proof. split; vm_compute; reflexivity. Qed.
+
+(* ------------------------------------------------------------------ GenzCornerPeak (a rational function: exact model) *)
+(* Model/FunGenz.v follows eval, eval_vectorized and getAnalyticSolutionIntegral (the loop over all 2^dim sign combinations) of
+   GenzCornerPeak over exact rationals, for every dimension. *)
+From SG Require Import Model.FunGenz Proofs.FunGenzProofs.
+From SG Require Proofs.FunGenzReal.
+
+(* scalar path = vectorised path *)
+Theorem C12_cornerpeak_vectorized_eq_scalar : forall cs x, length x = length cs -> cp_eval cs x = cp_vec_row cs x.
+Proof. exact cp_vectorized_eq_scalar. Qed.
+Print Assumptions C12_cornerpeak_vectorized_eq_scalar.
+
+(* the analytic integral as coded (factor * sum over the 2^dim combinations) is the dim-fold iterated difference of s |-> 1/s
+   over the corners, divided by dim! *)
+Theorem C12_cornerpeak_integral_is_iterated_difference : forall cs a b v, cp_int cs a b = IVal v ->
+  length a = length cs /\ length b = length cs /\ Forall (fun c => c <> 0) cs /\
+  v = stencil Qcinv 1 cs a b / qn (fact_nat (length cs)).
+Proof. exact cp_int_stencil. Qed.
+Print Assumptions C12_cornerpeak_integral_is_iterated_difference.
+
+(* MAIN: in EVERY dimension, whenever getAnalyticSolutionIntegral returns a value and 1 + sum c_d x_d > 0 on the box,
+   that value is the iterated Riemann integral (is_iter_int, Coquelicot's is_RInt in each variable) over the box of the real
+   function x |-> (1 + sum c_d x_d)^(-dim-1), which is what eval computes at every rational point. Uses the real-number
+   axioms of the standard library. *)
+Theorem C12_cornerpeak_integral_is_iterated_riemann : forall cs a b v, cp_int cs a b = IVal v ->
+  (forall xs, FunGenzReal.in_box xs (map FunPolyReal.QcR a) (map FunPolyReal.QcR b) ->
+              Rdefinitions.Rlt (Rdefinitions.IZR 0) (Rdefinitions.Rplus (Rdefinitions.IZR 1) (FunGenzReal.dotR (map FunPolyReal.QcR cs) xs))) ->
+  FunPolyIter.is_iterated_riemann_integral (FunGenzReal.cp_real cs) (map FunPolyReal.QcR a) (map FunPolyReal.QcR b) (FunPolyReal.QcR v).
+Proof. exact FunGenzReal.cornerpeak_integral_is_iterated_riemann. Qed.
+Theorem C12_cornerpeak_eval_is_real_function : forall cs x y, length x = length cs -> cp_eval cs x = IVal y ->
+  FunPolyReal.QcR y = FunGenzReal.cp_real cs (map FunPolyReal.QcR x).
+Proof. exact FunGenzReal.cp_eval_real. Qed.
+Print Assumptions C12_cornerpeak_integral_is_iterated_riemann.
+
+(* GenzCornerPeak([1, 2]) on [0,1]^2: 1/(2*1*2) * (1 - 1/2 - 1/3 + 1/4) = 5/48; eval((1/2, 1/4)) = 1/8 *)
+Example C12_nonvacuous_cornerpeak :
+  cp_int [1; Qc2] [0; 0] [1; 1] = IVal (Q2Qc (5#48)) /\ cp_eval [1; Qc2] [Qchalf; Q2Qc (1#4)] = IVal (Q2Qc (1#8)) /\
+  cp_vec_row [1; Qc2] [Qchalf; Q2Qc (1#4)] = IVal (Q2Qc (1#8)).
+Proof. repeat split; vm_compute; reflexivity. Qed.
+
+(* ------------------------------------------------------------------ product-structured transcendental classes (reals) *)
+(* Proofs/FunGenzSep.v transcribes the Python loops of eval and getAnalyticSolutionIntegral of GenzProductPeak (prefix pp_),
+   GenzDiscontinious (prefix gd_), GenzC0 (prefix c0_) and FunctionExpVar (prefix ev_) over the REAL numbers (exp, atan, x ** y = Rpower are the
+   real functions). For every dimension: the integral formula of the code is the iterated Riemann integral over the box
+   of the function computed by eval. These are theorems about the FORMULAS; the floating-point code is tied to them by
+   reading and by the numerical cross-check of the harness only (no extracted correspondence: the models are not
+   executable). All depend on the real-number axioms of the standard library. *)
+From SG Require Proofs.FunGenzSep.
+Theorem C12_productpeak_integral_is_iterated_riemann : forall cs ms a b,
+  length ms = length cs -> length a = length cs -> length b = length cs -> Forall (fun c => c <> Rdefinitions.IZR 0) cs ->
+  FunPolyIter.is_iterated_riemann_integral (fun xs => FunGenzSep.pp_eval cs ms xs (FunGenzSep.pp_factor (length cs))) a b
+    (Rdefinitions.Rmult (FunGenzSep.pp_int cs ms a b (Rdefinitions.IZR 1)) (FunGenzSep.pp_factor (length cs))).
+Proof. exact FunGenzSep.productpeak_integral_is_iterated_riemann. Qed.
+(* boxes with start <= end in every direction (the code takes min(end, border) and returns 0 for start >= border) *)
+Theorem C12_discontinious_integral_is_iterated_riemann : forall cs bs a b,
+  length bs = length cs -> length a = length cs -> length b = length cs -> Forall (fun c => c <> Rdefinitions.IZR 0) cs ->
+  FunGenzSep.box_ordered a b ->
+  FunPolyIter.is_iterated_riemann_integral (fun xs => FunGenzSep.gd_eval cs bs xs (Rdefinitions.IZR 0)) a b
+    (FunGenzSep.gd_int cs bs a b (Rdefinitions.IZR 1)).
+Proof. exact FunGenzSep.discontinious_integral_is_iterated_riemann. Qed.
+(* all four branches of the case analysis start/end versus midpoint *)
+Theorem C12_c0_integral_is_iterated_riemann : forall cs ms a b,
+  length ms = length cs -> length a = length cs -> length b = length cs -> Forall (fun c => c <> Rdefinitions.IZR 0) cs ->
+  FunGenzSep.box_ordered a b ->
+  FunPolyIter.is_iterated_riemann_integral (fun xs => FunGenzSep.c0_eval cs ms xs (Rdefinitions.IZR 0)) a b
+    (FunGenzSep.c0_int cs ms a b (Rdefinitions.IZR 1)).
+Proof. exact FunGenzSep.c0_integral_is_iterated_riemann. Qed.
+(* FunctionExpVar in every dimension n >= 1, boxes inside the open positive orthant; the exponent 1/n and the constant
+   (1+1/n)^n are those of the dimension of the ARGUMENT (len(coordinates) resp. len(start)) *)
+Theorem C12_expvar_integral_is_iterated_riemann : forall a b, a <> [] -> FunGenzSep.box_positive a b ->
+  FunPolyIter.is_iterated_riemann_integral
+    (fun xs => Rdefinitions.Rmult (Rpow_def.pow (Rdefinitions.Rplus (Rdefinitions.IZR 1) (Rdefinitions.Rdiv (Rdefinitions.IZR 1) (Raxioms.INR (length a)))) (length a))
+                                  (FunGenzSep.ev_prod (Rdefinitions.Rdiv (Rdefinitions.IZR 1) (Raxioms.INR (length a))) xs (Rdefinitions.IZR 1)))
+    a b (FunGenzSep.ev_int a b) /\
+  (forall xs, length xs = length a ->
+     FunGenzSep.ev_eval xs = Rdefinitions.Rmult (Rpow_def.pow (Rdefinitions.Rplus (Rdefinitions.IZR 1) (Rdefinitions.Rdiv (Rdefinitions.IZR 1) (Raxioms.INR (length a)))) (length a))
+                                                (FunGenzSep.ev_prod (Rdefinitions.Rdiv (Rdefinitions.IZR 1) (Raxioms.INR (length a))) xs (Rdefinitions.IZR 1))).
+Proof. exact FunGenzSep.expvar_integral_is_iterated_riemann. Qed.
+Print Assumptions C12_c0_integral_is_iterated_riemann.
+(* the iterated integral of a product of one-variable functions is the product of their integrals (used for all four) *)
+Theorem C12_separable_iterated_integral : forall fs a b vs, FunGenzSep.sep_ok fs a b vs ->
+  FunPolyIter.is_iterated_riemann_integral (FunGenzSep.prod_fun fs) a b (FunGenzSep.prodR vs).
+Proof. exact FunGenzSep.sep_iter. Qed.
